@@ -10,6 +10,7 @@ import LLRP.Oracle.C12
 import LLRP.Oracle.C20
 import LLRP.Oracle.C03
 import LLRP.Oracle.C09
+import LLRP.Oracle.C08
 /-!
 `oracle`: line-protocol driver of the executable models (one request per line on stdin, one reply per line on
 stdout). Imports only `LLRP.Model.*`, `LLRP.Gen.*` and `LLRP.Oracle.*` (never Mathlib, never proofs) so that it
@@ -29,7 +30,8 @@ def handlers : List Handler := [
   handleC12,
   handleC20,
   handleC03,
-  handleC09
+  handleC09,
+  handleC08
 ]
 
 def handle (line : String) : String :=
